@@ -12,7 +12,7 @@ import (
 func init() {
 	register(&core.Rule{ID: "C02.11", Prop: "C02", MinSites: 3,
 		Desc: "accepted means kept: in the *conn functions that write a payload parameter to the socket, no return is reachable before the payload was handed to a write/send call or appended to the outbound buffer (the pending-data edge appends, it does not just return the length)",
-		Run: runC02_11})
+		Run:  runC02_11})
 }
 
 func runC02_11(c *core.Ctx) {
@@ -145,7 +145,7 @@ func taintedBy(info *types.Info, body ast.Node, seed types.Object) map[types.Obj
 func init() {
 	register(&core.Rule{ID: "C18.8", Prop: "C18", MinSites: 3,
 		Desc: "a failed write is not reported as success: in the *conn functions that write a payload to the socket, every return on the edge where the write syscall failed with something other than EAGAIN hands back that error (the deferred close of the connection and the caller's error handling key on it)",
-		Run: runC18_8})
+		Run:  runC18_8})
 }
 
 func runC18_8(c *core.Ctx) {
@@ -259,7 +259,7 @@ func runC18_8(c *core.Ctx) {
 func init() {
 	register(&core.Rule{ID: "C02.14", Prop: "C02", MinSites: 3,
 		Desc: "leftover of a partial vectored write: the segment loop cuts a segment (X[i] = X[i][B:]) only where the remaining byte budget B is established smaller than that segment, stops right after the cut (the cut is not on a cycle), and otherwise takes the whole segment off the budget (B -= len) before going on",
-		Run: runC02_14})
+		Run:  runC02_14})
 }
 
 func runC02_14(c *core.Ctx) {
